@@ -83,13 +83,21 @@ fn m_verify(mode: u8, key: &[u8], m: &[u8], sig: &[u8], ctx: Option<&[u8]>, chos
     let sig = refmodel::arr64(sig);
     let strict = matches!(mode, 2 | 4);
     let vm = VerifyMode { strict, legacy: LEGACY };
-    let prehashed = matches!(mode, 3 | 4 | 6 | 8 | 10);
+    let prehashed = matches!(mode, 3 | 4 | 6 | 8 | 10 | 11);
     let verdict = if prehashed {
         let ph = eddsa::sha512(&[m]);
         let c = ctx.unwrap_or(b"");
         if c.len() > 255 {
             // with_context refuses; the plain prehashed verifiers are out of their documented domain
             return (key_ok, sig_ok, Some(false));
+        }
+        if mode == 11 {
+            // the context digest is the simulator's stub: the challenge is what it was told to output
+            let mut h = ChosenH(VecDeque::new());
+            if let Some(c) = chosen {
+                h.0.push_back(*c);
+            }
+            return (key_ok, sig_ok, Some(eddsa::verify(&mut h, &key, &ph, &sig, Some(c), vm).ok()));
         }
         eddsa::verify(&mut RealSha512, &key, &ph, &sig, Some(c), vm)
     } else if mode == 7 {
@@ -241,6 +249,17 @@ impl ModelW {
                 let mode = eff_sign_mode(*mode, sg.seed.is_some());
                 let c = ctx.as_ref().map(|c| c.0.as_slice());
                 let sig = match mode {
+                    6 => {
+                        // both hashes of the signing algorithm come from the stub: nonce hash, then challenge hash
+                        let mut h = ChosenH(VecDeque::new());
+                        if let Some(c) = c {
+                            if c.len() >= 128 {
+                                h.0.push_back(refmodel::arr64(&c[..64]));
+                                h.0.push_back(refmodel::arr64(&c[64..128]));
+                            }
+                        }
+                        Some(eddsa::sign_expanded(&mut h, &sg.a, &sg.prefix, &sg.pk, &m.0, None))
+                    }
                     0 | 1 | 4 => Some(eddsa::sign_expanded(&mut RealSha512, &sg.a, &sg.prefix, &sg.pk, &m.0, None)),
                     _ => {
                         let cc = c.unwrap_or(b"");
@@ -255,6 +274,9 @@ impl ModelW {
                 o.f("ok", sig.is_some());
                 if let Some(sig) = sig {
                     o.b("sig", &sig);
+                    if mode == 6 {
+                        return Out::Obs(o);
+                    }
                     // the signer's own verification wrappers accept what it just produced
                     o.f("self_verify", true);
                     if sg.seed.is_some() {
@@ -301,6 +323,21 @@ impl ModelW {
                         return Out::Skip; // nothing mismatched: not executed (state untouched)
                     }
                 }
+                let adaptive_ok = *var == 5
+                    && entries.len() >= 2
+                    && entries.iter().all(|e| {
+                        // inside the property's domain (canonical, torsion-free key and R) and individually valid
+                        let a = Pt::decode(&e.key);
+                        let rb = arr32(&e.sig[..32]);
+                        let r = Pt::decode(&rb);
+                        refmodel::Sc::is_canonical_bytes(&arr32(&e.sig[32..]))
+                            && a.map(|a| a.encode() == e.key && a.is_torsion_free()).unwrap_or(false)
+                            && r.map(|r| r.encode() == rb && r.is_torsion_free()).unwrap_or(false)
+                            && eddsa::verify(&mut RealSha512, &e.key, &e.m, &e.sig, None, VerifyMode { strict: false, legacy: false }).ok()
+                    });
+                if *var == 5 && !(adaptive_ok && *var == 5) {
+                    return Out::Skip; // the attack needs an accepted batch of at least two entries (state untouched)
+                }
                 if *clear {
                     self.q[qi].clear();
                 }
@@ -308,6 +345,13 @@ impl ModelW {
                 if *var == 4 {
                     o.f("ok", false);
                     o.f("consistent", true);
+                    return Out::Obs(o);
+                }
+                if *var == 5 {
+                    // adaptive adversary: sees the coefficients of an accepted batch, then shifts two S values so that
+                    // their errors cancel under those coefficients. Both entries are then individually invalid.
+                    o.f("first_call_ok", true);
+                    o.f("ok_after_adaptive_shift", false);
                     return Out::Obs(o);
                 }
                 // classification
@@ -378,6 +422,9 @@ fn lens(arg: &[u16], n: usize) -> (usize, usize, usize) {
 
 /// SigningKey-backed signers cannot use the hazmat-only modes and vice versa: map to the nearest
 fn eff_sign_mode(mode: u8, has_seed: bool) -> u8 {
+    if mode == 6 {
+        return 6; // hazmat raw_sign with the stub digest, any signer
+    }
     if has_seed {
         mode % 6
     } else {
@@ -697,6 +744,23 @@ impl RealW {
                 let c = ctx.as_ref().map(|c| c.0.as_slice());
                 let has_seed = matches!(sg, RSigner::Key(_));
                 let mode = eff_sign_mode(*mode, has_seed);
+                if mode == 6 {
+                    chosen_clear();
+                    if let Some(c) = c {
+                        if c.len() >= 128 {
+                            chosen_push(refmodel::arr64(&c[..64]));
+                            chosen_push(refmodel::arr64(&c[64..128]));
+                        }
+                    }
+                    let sig = match sg {
+                        RSigner::Key(sk) => hazmat::raw_sign::<ChosenDigest>(&ExpandedSecretKey::from(&sk.to_bytes()), &m.0, &sk.verifying_key()),
+                        RSigner::Esk(esk, vk) => hazmat::raw_sign::<ChosenDigest>(esk, &m.0, vk),
+                    };
+                    chosen_clear();
+                    o.f("ok", true);
+                    o.b("sig", &sig.to_bytes());
+                    return Out::Obs(o);
+                }
                 let sig: Option<Signature> = match (sg, mode) {
                     (RSigner::Key(sk), 0) => Some(sk.sign(&m.0)),
                     (RSigner::Key(sk), 1) => sk.try_sign(&m.0).ok(),
@@ -765,6 +829,8 @@ impl RealW {
                 let vk = match ksrc {
                     1 => Some(VerifyingKey::default()),
                     2 => VerifyingKey::try_from(&key.0[..]).ok().map(|k| VerifyingKey::from(k.to_edwards())),
+                    // through the PKCS#8 / SPKI public-key bytes route: must keep the key bytes as given
+                    3 if key.0.len() == 32 => VerifyingKey::try_from(ed25519_dalek::pkcs8::PublicKeyBytes(key.a32())).ok(),
                     _ => VerifyingKey::try_from(&key.0[..]).ok(),
                 };
                 let sg = Signature::from_slice(&sig.0).ok();
@@ -788,6 +854,15 @@ impl RealW {
                                 chosen_push(cb.a64());
                             }
                             let r = hazmat::raw_verify::<ChosenDigest>(&vk, &m.0, &sg).is_ok();
+                            chosen_clear();
+                            r
+                        }
+                        11 if !too_long => {
+                            chosen_clear();
+                            if let Some(cb) = chosen {
+                                chosen_push(cb.a64());
+                            }
+                            let r = hazmat::raw_verify_prehashed::<ChosenDigest, Sha512>(&vk, sha512_chunked(&m.0, ch), c, &sg).is_ok();
                             chosen_clear();
                             r
                         }
@@ -823,6 +898,9 @@ impl RealW {
                         return Out::Skip;
                     }
                 }
+                if *var == 5 && entries.len() < 2 {
+                    return Out::Skip;
+                }
                 if *clear {
                     self.q[qi].clear();
                 }
@@ -845,6 +923,32 @@ impl RealW {
                     set_dispatch(0);
                     o.f("ok", ok);
                     o.f("consistent", true);
+                    return Out::Obs(o);
+                }
+                if *var == 5 {
+                    if n < 2 {
+                        set_dispatch(0);
+                        return Out::Skip;
+                    }
+                    let first = run(&entries, n, n, n);
+                    let zs = crate::env::last_batch_coefficients();
+                    o.f("first_call_ok", first);
+                    let (i, j) = (arg.first().map(|a| *a as usize % n).unwrap_or(0), arg.get(1).map(|a| *a as usize % n).unwrap_or(1));
+                    let (i, j) = if i == j { (i, (i + 1) % n) } else { (i, j) };
+                    let mut second = false;
+                    if first && zs.len() == n {
+                        let zi = Scalar::from_bytes_mod_order(zs[i]);
+                        let zj = Scalar::from_bytes_mod_order(zs[j]);
+                        let t = Scalar::from(0x1234_5678_9abc_def1u64);
+                        let mut forged = entries.clone();
+                        let si = Scalar::from_bytes_mod_order(*forged[i].1.s_bytes()) + zj * t;
+                        let sj = Scalar::from_bytes_mod_order(*forged[j].1.s_bytes()) - zi * t;
+                        forged[i].1 = Signature::from_components(*forged[i].1.r_bytes(), si.to_bytes());
+                        forged[j].1 = Signature::from_components(*forged[j].1.r_bytes(), sj.to_bytes());
+                        second = run(&forged, n, n, n);
+                    }
+                    set_dispatch(0);
+                    o.f("ok_after_adaptive_shift", second);
                     return Out::Obs(o);
                 }
                 let base = run(&entries, n, n, n);
